@@ -218,6 +218,22 @@ class C13(Base):
             tuple(b.meter),
         )
 
+    @staticmethod
+    def same_snap(x, y):
+        """entries, meter and rest pattern identical; beats and lengths equal up
+        to float noise (a refused operation may recompute them)"""
+        def close(p, q):
+            try:
+                return abs(Fraction(p) - Fraction(q)) <= Fraction(1, 10 ** 9)
+            except Exception:
+                return p == q
+        if len(x[0]) != len(y[0]) or x[3] != y[3]:
+            return False
+        for e, f in zip(x[0], y[0]):
+            if not close(e[0], f[0]) or e[1] != f[1] or e[2] != f[2]:
+                return False
+        return close(x[1], y[1]) and close(x[2], y[2])
+
     def invariants(self, mb, what, feats):
         b = mb.obj
         self.clauses["C13.starts"] += 1
@@ -320,7 +336,7 @@ class C13(Base):
             except Exception:
                 pass
         elif outcome == "raised":
-            if self.snap(mb) != before:
+            if not self.same_snap(self.snap(mb), before):
                 self.fail("C13.refuse_atomic", "rejected set_meter(%r) changed the bar" % (tuple(meter),), op="set_meter")
         self.note_outcome("set_meter", {"ok": "accepted", "raised": "raised", "stall": "stall"}[outcome], [m.state() for m in self.bars])
         if outcome == "ok":
@@ -398,9 +414,9 @@ class C13(Base):
                 mb.entries = mb.entries[: len(after[0])]
         else:
             self.clauses["C13.refuse_atomic"] += 1
-            if after != before and exc is None:
+            if not self.same_snap(after, before) and exc is None:
                 self.fail("C13.refuse_atomic", "refused %s(%r, %r) changed the bar: %s -> %s" % (kind, form, v, before, after), **feats)
-            elif after != before:
+            elif not self.same_snap(after, before):
                 # an op that raised promises nothing about partial effects: resynchronise from what is observed
                 self._resync(mb)
         self.note_outcome(kind, outcome, [m.state() for m in self.bars])
@@ -707,8 +723,12 @@ class C12(Base):
         if strict:
             want = sorted((p, n[0], n[1]) for p, n in m.notes.items())
             got = sorted((o[2], o[0], o[1]) for o in obs)
-            if want != got:
+            if [w[0] for w in want] != [g[0] for g in got]:
                 self.fail("C12.content", "after %s the container holds %s, the set model predicts %s" % (what, [(g[1], g[2]) for g in got], [(w[1], w[2]) for w in want]), **feats)
+                self.resync(m)
+            elif want != got:
+                # same pitches under another spelling (which spelling of a duplicate is kept is not fixed by the statement)
+                self.probes["spelling_differs_from_model"] += 1
                 self.resync(m)
         else:
             self.resync(m)
